@@ -1,4 +1,4 @@
-"""Translator, part 3: the model switches that whole-history theorems take as hypotheses (`Model/Config.lean`), read off the
+"""Translator, part 3: the model switches that theorems take as hypotheses (`Model/Config.lean`), read off the
 *shape* of the current source and written to lean/DV/Generated/ConfigSrc.lean.
 
 `Model/Config.lean` is hand-maintained and tied to the code by the correspondence; the switches below are additionally
@@ -164,6 +164,81 @@ def slot_always_returned(app_mod):
     return None
 
 
+def decode_keeps_flags(msg_mod):
+    """`Message.from_bytes` writes the received flag octet back after constructing the command class"""
+    fn = _fn(msg_mod.Message.from_bytes)
+    saved = [a.targets[0].id for a in ast.walk(fn) if isinstance(a, ast.Assign) and isinstance(a.targets[0], ast.Name)
+             and isinstance(a.value, ast.Attribute) and a.value.attr == "command_flags"]
+    back = [a for a in ast.walk(fn) if isinstance(a, ast.Assign) and isinstance(a.targets[0], ast.Attribute)
+            and a.targets[0].attr == "command_flags" and isinstance(a.value, ast.Name) and a.value.id in saved]
+    if not back:
+        return False if not saved else None
+    # unconditional: a top-level statement of the function
+    return True if any(b in fn.body for b in back) else None
+
+
+def answer_keeps_p(msg_mod):
+    """`Message.to_answer` re-applies the request's P bit to the answer after the answer class has been constructed"""
+    fn = _fn(msg_mod.Message.to_answer)
+    sets = [a for a in fn.body if isinstance(a, ast.Assign) and isinstance(a.targets[0], ast.Attribute)
+            and a.targets[0].attr == "is_proxyable" and "answer" in _names(a.targets[0]) and "is_proxyable" in _names(a.value)]
+    cond = [a for a in ast.walk(fn) if isinstance(a, ast.Assign) and isinstance(a.targets[0], ast.Attribute)
+            and a.targets[0].attr == "is_proxyable" and "answer" in _names(a.targets[0])]
+    return True if sets else (False if not cond else None)
+
+
+def connect_fail_closes(node_mod):
+    """a synchronous connect failure in `_connect_to_peer` goes through `close_connection_socket`"""
+    fn = _fn(node_mod.Node._connect_to_peer)
+    hs = [h for t in ast.walk(fn) if isinstance(t, ast.Try) for h in t.handlers]
+    if not hs:
+        return None
+    closes = [bool(_calls(h, "close_connection_socket")) for h in hs]
+    removes = [bool(_calls(h, "remove_peer_connection")) for h in hs]
+    if all(closes) and not any(removes):
+        return True
+    if all(removes) and not any(closes):
+        return False
+    return None
+
+
+def origin_bookkeeping(node_mod):
+    """(`originOnlyRequests`, `originKeyPerConn`): `_receive_message` records the origin under a test of `is_request`; the key
+    is built from the connection's ident as well as the two identifiers"""
+    fn = _fn(node_mod.Node._receive_message)
+    stores = [(st, a) for st in ast.walk(fn) if isinstance(st, ast.If) for a in st.body
+              if isinstance(a, ast.Assign) and isinstance(a.targets[0], ast.Subscript) and "_origin_waiting_answer" in _names(a.targets[0])]
+    top = [a for a in fn.body if isinstance(a, ast.Assign) and isinstance(a.targets[0], ast.Subscript)
+           and "_origin_waiting_answer" in _names(a.targets[0])]
+    if len(stores) + len(top) != 1:
+        return None, None
+    only_req = ("is_request" in _names(stores[0][0].test)) if stores else False
+    keys = [a for a in ast.walk(fn) if isinstance(a, ast.Assign) and isinstance(a.targets[0], ast.Name) and a.targets[0].id == "message_id"]
+    per_conn = None
+    if len(keys) == 1:
+        nm = _names(keys[0].value)
+        per_conn = "ident" in nm and "hop_by_hop_identifier" in nm and "end_to_end_identifier" in nm
+        if not per_conn and not ("hop_by_hop_identifier" in nm or "end_to_end_identifier" in nm):
+            per_conn = None
+    return only_req, per_conn
+
+
+def ce_timeout_from_established(node_mod):
+    """`_check_timers` measures the CER/CEA timeouts on a CONNECTED connection from its establishment"""
+    fn = _fn(node_mod.Node._check_timers)
+    tests = [st.test for st in ast.walk(fn) if isinstance(st, ast.If) and ({"cea_timeout", "cer_timeout"} & _names(st.test))
+             and isinstance(st.test, ast.BoolOp)]
+    if not tests:
+        return None
+    est = [("established_since" in _names(t)) or ("established" in _names(t)) for t in tests]
+    lr = [("last_read_since" in _names(t)) or ("last_read" in _names(t)) for t in tests]
+    if all(est) and not any(lr):
+        return True
+    if all(lr) and not any(est):
+        return False
+    return None
+
+
 def extract() -> dict:
     import diameter.node.node as node_mod
     import diameter.node.peer as peer_mod
@@ -177,6 +252,18 @@ def extract() -> dict:
             out[key] = f(arg)
         except Exception:  # noqa      (a method that is gone or cannot be parsed: shape not recognised)
             out[key] = None
+    import diameter.message._base as msg_mod
+    for key, f, arg in (("decodeKeepsFlags", decode_keeps_flags, msg_mod), ("answerKeepsP", answer_keeps_p, msg_mod),
+                        ("connectFailCloses", connect_fail_closes, node_mod),
+                        ("ceTimeoutFromEstablished", ce_timeout_from_established, node_mod)):
+        try:
+            out[key] = f(arg)
+        except Exception:  # noqa
+            out[key] = None
+    try:
+        out["originOnlyRequests"], out["originKeyPerConn"] = origin_bookkeeping(node_mod)
+    except Exception:  # noqa
+        out["originOnlyRequests"], out["originKeyPerConn"] = None, None
     return out
 
 
